@@ -23,7 +23,7 @@ EXTENDS Naturals, Sequences, FiniteSets, TLC, Json
 CONSTANTS Depth, MaxE, MaxR
 
 \* a relation value: name id, version (0 none, 1, 2), qualifier (0/1), architectures (0 none, 1, 2),
-\* number of profile groups (0..2; group g is the fixed group #g)
+\* number of profile groups (0..3; group g is the fixed group #g of 1, 2 resp. 3 terms)
 \* o = how the value came into the field ("parsed" | "ctor" | "builder"): not part of the meaning, but part of the
 \* STATE, so that histories continuing from an operand of each origin are all explored
 R(n, v, q, a, p) == [n |-> n, v |-> v, q |-> q, a |-> a, p |-> p, o |-> "parsed"]
@@ -96,7 +96,7 @@ Next ==
         \/ Do(Op("drop_constraint", i, j, <<>>, "parsed"), EditRel(field, i + 1, j + 1, [r EXCEPT !.v = 0]))
         \/ Do(Op("set_archqual", i, j, <<>>, "parsed"), EditRel(field, i + 1, j + 1, [r EXCEPT !.q = 1]))
         \/ \E a \in 1..2 : Do(Op("set_architectures", i, j, <<a>>, "parsed"), EditRel(field, i + 1, j + 1, [r EXCEPT !.a = a]))
-        \/ r.p < 2 /\ Do(Op("add_profile", i, j, <<>>, "parsed"), EditRel(field, i + 1, j + 1, [r EXCEPT !.p = r.p + 1]))
+        \/ r.p < 3 /\ Do(Op("add_profile", i, j, <<>>, "parsed"), EditRel(field, i + 1, j + 1, [r EXCEPT !.p = r.p + 1]))
         \/ Do(Op("relation_remove", i, j, <<>>, "parsed"), RemoveRel(field, i + 1, j + 1))
 
 Init == \E b \in 1..Len(Bases) : base = b /\ field = Bases[b].f /\ hist = <<>>
